@@ -1146,7 +1146,11 @@ class Connection(ExportImport):
         # Note that we do this *after* resetting the storage so that, if
         # data are read, we read it from the reset storage!
 
-        self._cache.invalidate(src.index)
+        # (New objects that a savepoint wrote before it failed are still
+        # in _creating: the caller disowns them.  Invalidating them first
+        # would turn them into ghosts that nothing can load any more.)
+        self._cache.invalidate([oid for oid in src.index
+                                if oid not in self._creating])
 
         src.close()
 
